@@ -207,6 +207,8 @@ func RunActions(tx fixture.TxSpec, perms map[string]uint8, st map[string][]byte)
 				delete(work, string(o.Key))
 			case fixture.OpFail:
 				return st, false, outputs
+			case fixture.OpWho:
+				out = append(out, fixture.WhoRecord(fixture.Addr(tx.ActorIdx()))...)
 			}
 		}
 		outputs = append(outputs, out)
